@@ -1,6 +1,7 @@
 import PhononModel.Model.Displacement
 import PhononModel.Model.FDSolver
 import PhononModel.Model.FDSolverLit
+import PhononModel.Model.SymBook
 import PhononModel.Model.Wire
 open PhononModel PhononModel.Wire PhononModel.Disp PhononModel.FD
 
@@ -93,6 +94,9 @@ def showMs {n nrot : Nat} (perms : Fin nrot → Fin n → Fin n) (done : List (F
   | some ms => if n = 0 then "-" else ",".intercalate ((List.finRange n).map fun a => toString (ms a).1)
   | none => "none"
 
+def showM3 (r : M3) : String :=
+  s!"{r.r0.x},{r.r0.y},{r.r0.z},{r.r1.x},{r.r1.y},{r.r1.z},{r.r2.x},{r.r2.y},{r.r2.z}"
+
 def optsOf (pm : Nat) (isDiag isTrig : Nat) : Option Options := do
   let p ← match pm with | 0 => some PlusMinus.auto | 1 => some PlusMinus.on | 2 => some PlusMinus.off | _ => none
   if isDiag > 1 || isTrig > 1 then none
@@ -140,6 +144,52 @@ def handle (line : String) : String :=
     | "tables" =>
       if !c.atEnd then none
       pure s!"axis={showV3s directionsAxis} diag={showV3s directionsDiag}"
+    | "symm" =>
+      let (n, c) ← c.nat?
+      let (nrot, c) ← c.nat?
+      let (p, c) ← c.nats? (nrot * n)
+      let p ← allFin? n p
+      let (rv, c) ← readM3s c nrot
+      let (m, c) ← c.nats? n
+      let m ← allFin? n m
+      let (pm, c) ← c.nat?
+      let (isDiag, c) ← c.nat?
+      let (isTrig, c) ← c.nat?
+      let o ← optsOf pm isDiag isTrig
+      if !c.atEnd then none
+      let rva := rv.toArray
+      if h : p.size = nrot * n ∧ m.size = n ∧ rva.size = nrot then
+        let perms := fn2 nrot n p h.1
+        let mapAtoms := fn1 n m h.2.1
+        let rots := fn1 nrot rva h.2.2
+        let indep := ",".intercalate ((independentAtoms mapAtoms).map fun a => toString a.1)
+        let cert := equivCert perms mapAtoms && identityCert rots perms
+        let mapops := ",".intercalate ((List.finRange n).map fun i =>
+          match mapOperation perms mapAtoms i with | some g => toString g.1 | none => "none")
+        let site := "|".intercalate ((List.finRange n).map fun a => ";".intercalate ((siteSymmetry rots perms a).map showM3))
+        let dirs := match generateDirections rots perms mapAtoms o with
+          | some L => if L.isEmpty then "-" else ";".intercalate (L.map fun (p : Fin n × V3) => s!"{p.1.1}:{showV3 p.2}")
+          | none => "error"
+        pure s!"indep={indep} cert={cert} mapops={mapops} site={site} dirs={dirs}"
+      else none
+    | "dataset" =>
+      let (lat, c) ← c.rats? 9
+      let (dist, c) ← c.rat?
+      let (nd, c) ← c.nat?
+      let rec rd (k : Nat) (c : Cur) (acc : Array Rat) : Option (Array Rat × Cur) :=
+        match k with
+        | 0 => some (acc, c)
+        | k + 1 => do
+          let (v, c) ← c.ints? 3
+          let (nrm, c) ← c.rat?
+          let d : V3 := ⟨v.getD 0 0, v.getD 1 0, v.getD 2 0⟩
+          let lattice : Mat3 Rat := fun a b => lat.getD (a.1 * 3 + b.1) 0
+          if nrm = 0 then none
+          let u := datasetVector lattice dist nrm d
+          rd k c (((acc.push (u 0)).push (u 1)).push (u 2))
+      let (out, c) ← rd nd c #[]
+      if !c.atEnd then none
+      pure (if out.isEmpty then "-" else showRats out)
     | "solve" =>
       let (n, c) ← c.nat?
       let ⟨D, _, c⟩ ← readAtomData n 1 c
